@@ -286,7 +286,24 @@ def run(tier, seed, t0):
     gsh = 16 if q else 64
     tasks += [("genmut", seed, i, ng // gsh) for i in range(gsh)]
     res = core.run_parallel(task, tasks)
-    return core.finish("C04", tier, seed, res, RULE, t0, replay_known=replay_known,
+    extra = None
+    if not q:
+        # sanitizer supplement: the real CLI under valgrind memcheck on a slice of the catalogue
+        from .. import sanitizers
+        cat = hostile.edge_programs()
+        inputs = [t for i, (_, t) in enumerate(cat) if i % 30 == seed % 30] + [hostile.nested(k, 16) for k in hostile.NEST_KINDS]
+        inputs = [t for t in inputs if not excluded_reason(t)]
+        vg = sanitizers.valgrind_cli(inputs)
+        for rep in vg["error_reports"]:
+            res.violation(["memcheck", rep["kind"]], {"text": rep["text"], "stage": "cli-build-under-memcheck", "label": "valgrind"},
+                          {"stderr": rep["stderr"]})
+        if vg["status"] != "ok":
+            res.inconclusive += 1
+            res.notes.append("valgrind supplement inconclusive: " + vg["status"])
+        res.count("memcheck_cli_runs", vg["runs"])
+        extra = {"sanitizer_supplement": {"tool": "valgrind 3.19 memcheck on `ucg build`", "status": vg["status"], "runs": vg["runs"],
+                                          "error_reports": len(vg["error_reports"])}}
+    return core.finish("C04", tier, seed, res, RULE, t0, replay_known=replay_known, extra=extra,
                        assumptions=["'never fails to terminate' is monitored as bounded progress: %gs per stage, "
                                     "confirmed alone with 3x the budget" % STAGE_TIMEOUT,
                                     "probe built with overflow-checks and debug-assertions on (semantics of `cargo build`)"])
@@ -313,7 +330,13 @@ def replay_known(entry):
 
 def replay(path, tier, seed):
     d = json.load(open(path))
-    res = replay_text(d["witness"]["text"])
+    if d["witness"].get("stage") == "cli-build-under-memcheck":
+        from .. import sanitizers
+        res = core.Result()
+        for rep in sanitizers.valgrind_cli([d["witness"]["text"]])["error_reports"]:
+            res.violation(["memcheck", rep["kind"]], d["witness"], {"stderr": rep["stderr"]})
+    else:
+        res = replay_text(d["witness"]["text"])
     if res.violations:
         print("VIOLATION property=C04 replay=%s" % path)
         print(json.dumps(res.violations[0], indent=1)[:2000])
